@@ -659,7 +659,16 @@ func runC20(h *Harness) {
 				}
 				return nil, 0
 			}
-			h.Settle(10*time.Minute + 40*time.Second)
+			// the next refresh cycle, from its start to well past its end (every location fails after 5 attempts, 1 s apart)
+			h.S.Run(func(v schedView) bool {
+				for _, t := range v.parked {
+					if t.kind == kStart && !t.client {
+						return true
+					}
+				}
+				return false
+			}, h.S.Now()+10*time.Minute+time.Second)
+			h.Settle(3 * time.Minute)
 			h.Disk.StFault = nil
 			h.Quiesce()
 			h.R.NonTrivial = true
